@@ -3,7 +3,7 @@ import collections
 
 from harness import simdrv as S
 from harness import simprops as SP
-from harness.impl import E_OPCOUNT
+from harness.impl import E_OPCOUNT, E_SCHED
 
 ID = 'C08'
 BRIDGE_IMPORTS = 'From Eudoxia Require Import Model.SchedSrc.\n'
@@ -25,6 +25,40 @@ def monitor(run):
         yield (f'run_simulator raised {run.exc} in tick {len(run.ticks)} (scheduler {run.r["algo"]}, '
                f'multi_operator_containers={bool(run.r["multi"])}, {run.r["npools"]} pools of {run.r["cpu"]} CPUs / '
                f'{run.r["ram"]} GB, {run.r["tps"]} ticks/s)')
+
+
+def gen_startup(rng, gen='G-sim-startup'):
+    """configurations OUTSIDE the valid range, which run_simulator must refuse: priority-pool on a pool count other
+    than two (assertion in the scheduler's init, before tick 0); no pool at all or pools without RAM (the
+    utilisation percentage at the end of tick 0 divides by the total RAM)"""
+    what = rng.choice(['ppool-npools', 'zero-ram', 'zero-ram', 'no-pool'])
+    if what == 'ppool-npools':
+        rec = S.gen_sim(rng, algo='priority-pool', gen=gen)
+        rec['npools'] = rng.choice([0, 1, 3, 4])
+    elif what == 'zero-ram':
+        rec = S.gen_sim(rng, gen=gen)
+        rec['ram'] = 0
+    else:
+        rec = S.gen_sim(rng, algo=rng.choice(['naive', 'starter', 'overbook', 'priority']), gen=gen)
+        rec['npools'] = 0
+    rec['what'] = what
+    return rec
+
+
+def monitor_startup(run):
+    r = run.r
+    nticks = int(r['duration'] * r['tps'])
+    if r['algo'] == 'priority-pool' and r['npools'] != 2:
+        if not (run.err == E_SCHED and not run.ticks):
+            yield (f'priority-pool on {r["npools"]} pools: expected the init assertion before tick 0, got '
+                   f'{run.exc or "a normal return"} after {len(run.ticks)} tick(s)')
+    elif r['npools'] == 0 or r['ram'] == 0:
+        if nticks == 0:
+            if run.err:
+                yield f'run of zero ticks raised {run.exc}'
+        elif not run.err or len(run.ticks) > 1:
+            yield (f'total RAM is zero ({r["npools"]} pools of {r["ram"]} GB), {nticks} ticks: expected an exception in '
+                   f'tick 0, got {run.exc or "a normal return"} after {len(run.ticks)} tick(s)')
 
 
 def gen_extreme(rng, gen='G-sim-extreme'):
@@ -85,6 +119,8 @@ def replay(recipe):
             return None, []
         except Exception as e:  # noqa
             return None, [dict(desc=f'raised {type(e).__name__}: {e}', signature='valid-config-raises', recipe=recipe)]
+    if recipe.get('gen') == 'G-sim-startup':
+        return SP.replay(recipe, MASK, monitor_startup, 'invalid-config-accepted')
     return SP.replay(recipe, MASK, monitor, 'valid-config-raises')
 
 
@@ -130,11 +166,26 @@ def run(ctx):
         for desc in monitor(run_):
             out['hits'].append(dict(desc=desc, signature=known(run_, desc) or 'valid-config-raises', recipe=recipe,
                                     gen='G-sim-ppool-single'))
+    # configurations outside the valid range: both sides must stop at start-up / in tick 0 with the same error
+    for i in range(ctx.budget(60, 600)):
+        rng = ctx.case_rng('G-sim-startup', i)
+        recipe = gen_startup(rng)
+        recipe['case_index'] = i
+        case, run_ = S.drive(recipe, MASK)
+        out['cases'].append(case)
+        st['startup_runs'] += 1
+        st['startup_' + recipe['what']] += 1
+        st['startup_err_%d' % run_.err] += 1
+        for desc in monitor_startup(run_):
+            out['hits'].append(dict(desc=desc, signature='invalid-config-accepted', recipe=recipe, gen='G-sim-startup'))
+            break
     out['hits'] += generated_runs(ctx, st)
     out['dist'] = dict(st)
     out['rule'] = ('whole run_simulator runs for every shipped scheduler (naive, starter template, overbook with overcommit, '
                    'priority, priority-pool on two pools): G-sim, G-sim-extreme (tick rates to 100000, durations below one '
                    'tick, 1-CPU and sub-GB pools, segments rounding to zero ticks), priority-pool in single-operator mode, '
                    'and parameter sets through the real WorkloadGenerator (probability triples incl. 0.7/0.2/0.1). The '
-                   'implementation must return normally exactly when the model does. non-trivial = runs with an assignment')
+                   'implementation must return normally exactly when the model does. G-sim-startup: configurations outside '
+                   'the valid range (priority-pool on 0/1/3/4 pools; zero pools; zero RAM) must be refused with the same '
+                   'error on both sides (model: sim_dump_main). non-trivial = runs with an assignment')
     return out
